@@ -473,7 +473,7 @@ def generate(seed, profile_name, faulty=None):
             steps.append({'k': 'inspect'})
 
     # ---- a last message whose carried payload is not schema-shaped (only C05 judges it) ------------------
-    if faulty and R.random() < P.get('poison_rate', 0.04):
+    if faulty and R.random() < P.get('poison_rate', 0.07):
         saved = g.weights
         g.weights = {t: 1.0 for t in ('StoryInsert', 'StoryAppend', 'StoryReplace', 'EAStoryInsert', 'EAStoryReplace',
                                       'ItemInsert', 'ItemReplace', 'EAItemInsert', 'EAItemReplace')}
